@@ -2,11 +2,11 @@
 
 mod attributes;
 
-use self::attributes::{ContainerAttributes, FieldAttributes, VariantAttributes};
+use self::attributes::{ContainerAttributes, FieldAttributes, VariantAttributes, Case};
 use crate::util::{inner_Option, extract_doc_comment, extract_doc_attrs};
 use proc_macro2::{TokenStream, Span};
 use quote::quote;
-use syn::{Item, ItemFn, ItemStruct, ItemEnum, Fields, FieldsNamed, FieldsUnnamed, Variant, Visibility, Ident, LitInt, LitStr, Type, Path, token, Token, punctuated::Punctuated};
+use syn::{Item, ItemFn, ItemStruct, ItemEnum, Fields, FieldsNamed, FieldsUnnamed, Variant, Visibility, Ident, LitInt, LitStr, Type, Path, token, Token, punctuated::Punctuated, ext::IdentExt};
 
 pub(super) fn derive_schema(input: TokenStream) -> syn::Result<TokenStream> {
     return match syn::parse2::<Item>(input)? {
@@ -26,7 +26,10 @@ pub(super) fn derive_schema(input: TokenStream) -> syn::Result<TokenStream> {
             &*container_attrs.serde.from,
             &*container_attrs.serde.try_from,
         ) {
-            (None, None, None) => schema_of_fields(s.fields, &container_attrs)?,
+            (None, None, None) => schema_of_fields(
+                s.fields,
+                container_attrs.serde.rename_all.value()?.map(|(_, case)| *case)
+            )?,
             (Some(t), _, _) | (_, Some(t), _) | (_, _, Some(t)) => {
                 let t = syn::parse_str::<Type>(t)?;
                 quote! {
@@ -125,7 +128,7 @@ pub(super) fn derive_schema(input: TokenStream) -> syn::Result<TokenStream> {
         })
     }
 
-    fn schema_of_fields(fields: Fields, container_attrs: &ContainerAttributes) -> syn::Result<TokenStream> {
+    fn schema_of_fields(fields: Fields, rename_all: Option<Case>) -> syn::Result<TokenStream> {
         match fields {
             Fields::Named(FieldsNamed { brace_token:_, named }) => {/* object */
                 let mut properties = Vec::with_capacity(named.len());
@@ -139,16 +142,18 @@ pub(super) fn derive_schema(input: TokenStream) -> syn::Result<TokenStream> {
                         continue
                     }
 
-                    let mut ident = f.ident.clone().unwrap(/* Named */);
-                    if let Some((span, case)) = container_attrs.serde.rename_all.value()? {
-                        ident = Ident::new(&case.apply_to_field(&ident.to_string()), span);
+                    /* serde names are arbitrary strings, not always valid Rust identifiers */
+                    let ident = f.ident.as_ref().unwrap(/* Named */);
+                    let mut name = ident.unraw().to_string();
+                    if let Some(case) = rename_all {
+                        name = case.apply_to_field(&name);
                     }
-                    if let Some((span, rename)) = field_attrs.serde.rename.value()? {
-                        ident = Ident::new(&rename, span);
+                    if let Some((_, rename)) = field_attrs.serde.rename.value()? {
+                        name = rename.clone();
                     }
+                    let property_name = LitStr::new(&name, ident.span());
 
                     if let Some(schema_with) = &field_attrs.openapi.schema_with {
-                        let property_name = LitStr::new(&ident.to_string(), ident.span());
                         let schema_with = syn::parse_str::<Path>(schema_with)?;
                         properties.push(quote! {
                             schema = schema.property(#property_name, #schema_with());
@@ -197,8 +202,6 @@ pub(super) fn derive_schema(input: TokenStream) -> syn::Result<TokenStream> {
                             }
                         })
                     } else {
-                        let property_name = LitStr::new(&ident.to_string(), ident.span());
-
                         properties.push(if is_optional_field {quote! {
                             schema = schema.optional(#property_name, #property_schema);
                         }} else {quote! {
@@ -320,15 +323,15 @@ pub(super) fn derive_schema(input: TokenStream) -> syn::Result<TokenStream> {
                 variant_names.push({
                     let variant_attrs = VariantAttributes::new(&v.attrs)?;
                     
-                    let mut ident = v.ident.clone();
-                    if let Some((span, case)) = container_attrs.serde.rename_all.value()? {
-                        ident = Ident::new(&case.apply_to_variant(&ident.to_string()), span);
+                    let mut name = v.ident.unraw().to_string();
+                    if let Some((_, case)) = container_attrs.serde.rename_all.value()? {
+                        name = case.apply_to_variant(&name);
                     }
-                    if let Some((span, name)) = variant_attrs.serde.rename.value()? {
-                        ident = Ident::new(&*name, span);
+                    if let Some((_, rename)) = variant_attrs.serde.rename.value()? {
+                        name = rename.clone();
                     };
                     
-                    LitStr::new(&ident.to_string(), ident.span())
+                    LitStr::new(&name, v.ident.span())
                 });
             }
             
@@ -340,7 +343,7 @@ pub(super) fn derive_schema(input: TokenStream) -> syn::Result<TokenStream> {
 
         } else {
             let mut variant_schemas = Vec::with_capacity(variants.len());
-            for mut v in variants {
+            for v in variants {
                 let variant_attrs = VariantAttributes::new(&v.attrs)?;
 
                 if variant_attrs.serde.skip
@@ -352,31 +355,22 @@ pub(super) fn derive_schema(input: TokenStream) -> syn::Result<TokenStream> {
                 }
 
                 let tag = {
-                    let mut ident = v.ident;
-                    if let Some((span, case)) = container_attrs.serde.rename_all.value()? {
-                        ident = Ident::new(&case.apply_to_variant(&ident.to_string()), span);
+                    let mut name = v.ident.unraw().to_string();
+                    if let Some((_, case)) = container_attrs.serde.rename_all.value()? {
+                        name = case.apply_to_variant(&name);
                     }
-                    if let Some((span, name)) = variant_attrs.serde.rename.value()? {
-                        ident = Ident::new(&*name, span);
+                    if let Some((_, rename)) = variant_attrs.serde.rename.value()? {
+                        name = rename.clone();
                     }
-                    LitStr::new(&ident.to_string(), ident.span())
+                    LitStr::new(&name, v.ident.span())
                 };
 
-                /* preprocess `#[serde(rename_all_fields)]` of enum */
-                if let (
-                    Fields::Named(FieldsNamed { brace_token:_, named }),
-                    Some((span, case))
-                ) = (
-                    &mut v.fields,
-                    container_attrs.serde.rename_all_fields.value()?
-                ) {
-                    for f in named {
-                        f.ident = Some(Ident::new(
-                            &case.apply_to_field(&f.ident.as_ref().unwrap(/* Named */).to_string()),
-                            span
-                        ));
-                    }
-                }
+                /* fields of a variant are renamed by the variant's `rename_all`,
+                   or else the enum's `rename_all_fields`; the enum's `rename_all` renames variants only */
+                let rename_all = match variant_attrs.serde.rename_all.value()? {
+                    Some((_, case)) => Some(*case),
+                    None => container_attrs.serde.rename_all_fields.value()?.map(|(_, case)| *case)
+                };
 
                 let mut schema = if let Some(schema_with) = &variant_attrs.openapi.schema_with {
                     let schema_with = syn::parse_str::<Path>(schema_with)?;
@@ -384,7 +378,7 @@ pub(super) fn derive_schema(input: TokenStream) -> syn::Result<TokenStream> {
                         #schema_with()
                     }
                 } else {
-                    schema_of_fields(v.fields, &container_attrs)?
+                    schema_of_fields(v.fields, rename_all)?
                 };
 
                 schema = match (
